@@ -11,6 +11,10 @@
      kX  create a child of X (no deadline), poll it, free it (all by this thread)
      fX  nsync_note_free (X)  -- legal only if no other thread has an operation naming X, and this
          thread none after it; operations on X's relatives by other threads are legal (C09)
+     KX  create a child of X (no deadline) and KEEP it;  QX  poll and free the child this thread created with KX;
+     aX  wait (client level) until every KX of the program has returned.  Another thread may free X after its
+         own aX: the kept child then outlives its parent and is freed later (creation racing with a
+         notification of the parent, then free (parent), then free (child)).
 
    Oracles
      C08  one-way: an observation of X invoked after another observation of X returned "notified"
@@ -43,8 +47,13 @@ static int idx (char c) { const char *p = strchr (letters, c); return (p && c) ?
 static int exists (int x) { for (; x >= 0; x = parent_of[x]) if (hdr[x] == 'x') return 0; return 1; }
 static int64_t hdr_dl (char c) { return c == 'p' ? H_PAST : c == '1' ? H_D1 : c == '2' ? H_D2 : MC_NEVER; }
 
+static int nK[NN];                      /* number of KX operations in the program */
+static int K_done[NN]; static volatile int K_all_done[NN];
+static nsync_note kept[MC_MAXF][NN];
+MC_ORACLE static int K_returned (int x) { return ++K_done[x] == nK[x]; }
 static int note_setup (const char *program) {
 	int t, k, n, x;
+	for (x = 0; x < NN; x++) nK[x] = 0;
 	const char *colon = strchr (program, ':');
 	if (!colon || colon - program != NN) return -1;
 	memcpy (hdr, program, NN); hdr[NN] = 0;
@@ -57,13 +66,21 @@ static int note_setup (const char *program) {
 		if (l < 2 || l > 3) return -1;
 		x = idx (o[l-1]);
 		if (x < 0 || !exists (x)) return -1;
-		if (l == 2 && !strchr ("niwekf", o[0])) return -1;
+		if (l == 2 && !strchr ("niwekfKQa", o[0])) return -1;
+		if (o[0] == 'K') nK[x]++;
+		if (o[0] == 'Q') { int k2, made = 0; for (k2 = 0; k2 < k; k2++) if (h_op[t][k2][0] == 'K' && idx (h_op[t][k2][1]) == x) made++; for (k2 = 0; k2 < k; k2++) if (h_op[t][k2][0] == 'Q' && idx (h_op[t][k2][1]) == x) made--; if (made < 1) return -1; }
 		if (l == 3 && !(o[0] == 'w' && (o[1] == 'd' || o[1] == 'e'))) return -1;
 		if (o[0] == 'f') {
 			int t2, k2;
 			for (t2 = 0; t2 < n; t2++) for (k2 = 0; k2 < h_nops[t2]; k2++) {
 				const char *o2 = h_op[t2][k2];
 				if (idx (o2[strlen (o2) - 1]) != x) continue;
+				if (t2 != t && (o2[0] == 'K' || o2[0] == 'Q')) {   /* legal if this thread waited for the creations */
+					int k3, waited = 0;
+					for (k3 = 0; k3 < k; k3++) if (h_op[t][k3][0] == 'a' && idx (h_op[t][k3][1]) == x) waited = 1;
+					if (!waited) return -1;
+					continue;
+				}
 				if (t2 != t) return -1;            /* another thread uses the note being freed */
 				if (k2 > k) return -1;             /* used after free */
 			}
@@ -160,6 +177,9 @@ static void note_thread (int me) {
 				nsync_note_free (kid);
 			}
 			break; }
+		case 'K': kept[me][x] = nsync_note_new (note[x], nsync_time_no_deadline); if (K_returned (x)) mc_flag_set (&K_all_done[x], 1); break;
+		case 'a': if (nK[x] > 0) mc_await (&K_all_done[x]); break;
+		case 'Q': if (kept[me][x] != NULL) { r = nsync_note_is_notified (kept[me][x]); nsync_note_free (kept[me][x]); kept[me][x] = NULL; } break;
 		case 'f': mark_free_begun (x); nsync_note_free (note[x]); mark_freed (x); break;
 		}
 		h_res[me][k] = r;
